@@ -11,12 +11,35 @@ def formatOf : String → Option Format
   | "plain" => some .plain
   | _ => none
 
+def sourceOf : String → Option Source
+  | "flag" => some .flag
+  | "env" => some .env
+  | "file" => some .file
+  | _ => none
+
+/-- `-` = none, `u:<user hex>` = user without password, `p:<user hex>:<password hex>` -/
+def userinfoOf (s : String) : Option (Option Userinfo) :=
+  match s.splitOn ":" with
+  | ["-"] => some none
+  | ["u", u] => (bytesOfHex u).map fun u => some ⟨u, none⟩
+  | ["p", u, p] =>
+    match bytesOfHex u, bytesOfHex p with
+    | some u, some p => some (some ⟨u, some p⟩)
+    | _, _ => none
+  | _ => none
+
 /-
   describe <oneline|plain> <flag> <raw values: hex list>
       → `ok <hex>`   the value part that DescribeFlags prints for the flag (after `name=`)
       → `err`        a raw value is rejected by the flag's parser
   absent <secret hex> <text hex>
       → `true` | `false`   the decidable form of "the secret is not a substring of the text"
+  upstreamurl <scheme hex> <host:port hex> <userinfo of --proxy> <userinfo of the matching --credentials entry>
+      → `ok <hex>`   the url attribute of the "using upstream proxy" line
+  flagerr <flag|env|file> <flag> <raw values: hex list>
+      → `ok <hex>`   `invalid argument … for "<flag>" flag: ` as printed for a rejected value
+  cacerterr <raw hex>
+      → `ok <hex>`   the error of a start-up whose --cacert-file value holds no certificate
 -/
 def handle : List String → String
   | ["describe", fmt, flag, raws] =>
@@ -26,6 +49,18 @@ def handle : List String → String
       | some vs => s!"ok {hexOfBytes (renderValues f slice k vs)}"
       | none => "err"
     | _, _, _ => "bad-op"
+  | ["upstreamurl", scheme, host, own, cred] =>
+    match bytesOfHex scheme, bytesOfHex host, userinfoOf own, userinfoOf cred with
+    | some sc, some h, some o, some c => s!"ok {hexOfBytes (upstreamLogURL ⟨sc, o, h⟩ c)}"
+    | _, _, _, _ => "bad-op"
+  | ["flagerr", src, flag, raws] =>
+    match sourceOf src, flagKind flag, bytesList raws with
+    | some sr, some (_, slice), some rs => s!"ok {hexOfBytes (invalidArgText sr flag slice rs)}"
+    | _, _, _ => "bad-op"
+  | ["cacerterr", raw] =>
+    match bytesOfHex raw with
+    | some r => s!"ok {hexOfBytes (caCertErrorText r)}"
+    | none => "bad-op"
   | ["absent", secret, text] =>
     match bytesOfHex secret, bytesOfHex text with
     | some s, some t => if isInfix s t then "false" else "true"
